@@ -3042,8 +3042,13 @@ def rule_join_meet(run: Run, prog: Program, part: str = "span") -> int:
         line_rs.kinds = set(line_kinds)
         expect("meet of two skew lines of 3-space", [line_pq, line_rs], "NotCoplanar")
         expect("join of two skew lines of 3-space", [line_pq, line_rs], "NotCoplanar", flags={"intersect_lines": False})
-    except (Unknown, NotPolynomial, RecursionError):
-        pass
+    except (Unknown, NotPolynomial, RecursionError) as ex_:
+        # the lines of 3-space these configurations start from could not be built: the configurations are listed as undecided, not dropped
+        done_ = {o.stmt for o in deg_run.obligations if o.rule == "E19.join"}
+        for label_ in ("join of the line join(p, q) with a point of that line", "meet of two skew lines of 3-space", "join of two skew lines of 3-space"):
+            if label_ not in done_:
+                n_ob += 1
+                deg_run.add("E19.join", fn.short, label_, UNDECIDED, f"not read: the join of two points of 3-space is not read ({str(ex_)[:80]})", fn.loc)
     return n_span if part == "span" else n_ob - n_span
 
 
